@@ -173,7 +173,7 @@ _W = {}
 def _worker_init(check_mod, tier, paths, base_root, deadline=None):
     mod = importlib.import_module(check_mod)
     check = mod.CHECK
-    base = os.path.join(base_root, 'w%d' % os.getpid())
+    base = os.path.join(base_root, 'w%010d' % os.getpid())
     os.makedirs(base, exist_ok=True)
     _W['ctx'] = Ctx(check, tier, paths, base)
     _W['ctx'].deadline = deadline
@@ -275,7 +275,7 @@ def run_check(check_mod, tier, seed, replay=None, max_cases=None, workers=None, 
         print('E1 unavailable: ptrace/seccomp tracing is not permitted here; no verdict')
         return 2
 
-    base_root = os.path.join(SHM, 'verif-%d' % os.getpid())
+    base_root = os.path.join(SHM, 'verif-%010d' % os.getpid())
     os.makedirs(base_root, exist_ok=True)
     nworkers = workers or int(os.environ.get('VERIF_WORKERS', '16'))
     ctxm = multiprocessing.get_context('fork')
@@ -565,7 +565,7 @@ def debug_case(check_mod, tier, seed, index):
     mod = importlib.import_module(check_mod)
     check = mod.CHECK
     paths = builds.ensure(check.builds)
-    base = os.path.join(SHM, 'verif-debug-%d' % os.getpid())
+    base = os.path.join(SHM, 'vdbug-%010d/w%010d' % (os.getpid(), os.getpid()))
     ctx = Ctx(check, tier, paths, base)
     orig = ctx.sk.run
 
@@ -587,7 +587,7 @@ def debug_case(check_mod, tier, seed, index):
         print({k: od[k] for k in ('runs', 'ref_runs', 'steps', 'faults', 'probes', 'skipped')})
     finally:
         ctx.close()
-        shutil.rmtree(base, ignore_errors=True)
+        shutil.rmtree(os.path.dirname(base), ignore_errors=True)
     return 0
 
 
